@@ -248,7 +248,7 @@ public:
     MVal gen_value() {
         MVal v;
         v.id = next_id++;
-        if (pf_.inline_values && c_.chance(1, 6)) {
+        if (pf_.inline_values && (inline_heavy_ ? c_.chance(5, 6) : c_.chance(1, 6))) {
             v.inl = true;
             // user-space pointer range only: the two top bits are reserved by the library
             v.word = (static_cast<std::uintptr_t>(v.id) * 0x9E3779B97F4A7C15ULL) & 0x00007fffffffffffULL;
@@ -606,9 +606,15 @@ public:
         }
         classes.insert("bulk");
     }
+    bool inline_heavy_{false}; // this program stores mostly pointer-typed (inline) values, bulk loads included
     MVal gen_bulk_value() {
         MVal v;
         v.id = next_id++;
+        if (inline_heavy_) {
+            v.inl = true;
+            v.word = (static_cast<std::uintptr_t>(v.id) * 0x9E3779B97F4A7C15ULL) & 0x00007fffffffffffULL;
+            return v;
+        }
         v.bytes = vf::value_bytes(v.id, 1 + v.id % 5);
         v.align = 1;
         return v;
@@ -1482,11 +1488,57 @@ public:
         classes.insert("inline_null_value");
     }
 
+    // values of 8-byte integer types other than uintptr_t are ordinary out-of-line values: an array of them keeps its length and every
+    // element (only pointer types and uintptr_t are stored by value)
+    template<class T>
+    void typed_array_rt(const std::string& name, const char* tname) {
+        ensure_session();
+        const MStore& ms = model[name];
+        std::string key;
+        for (int tries = 0; tries < 8; ++tries) {
+            key = vf::gen_fresh_key(c_, kopt_);
+            if (ms.count(key) == 0) { break; }
+        }
+        if (ms.count(key) != 0) { return; }
+        const std::size_t n = 1 + c_.range(0, 4);
+        std::vector<T> arr;
+        for (std::size_t i = 0; i < n; ++i) {
+            std::uint64_t w = (static_cast<std::uint64_t>(next_id++) * 0x9E3779B97F4A7C15ULL);
+            if (c_.chance(1, 3)) { w |= 0xC000000000000000ULL; } // top bits set: negative / huge values
+            arr.push_back(static_cast<T>(w));
+        }
+        note(std::string("typed_array_rt<") + tname + ">(" + show(name) + ", \"" + show(key) + "\", n=" + std::to_string(n) + ")");
+        T* created = nullptr;
+        ++st_.checks;
+        status rc = put<T>(token, name, key, arr.data(), n * sizeof(T), &created, static_cast<value_align_type>(alignof(T)), false,
+                           static_cast<inserted_node_info*>(nullptr));
+        if (rc != status::OK) { fail("put_status", std::string("put<") + tname + "> returned " + st_name(rc)); }
+        std::pair<T*, std::size_t> out{};
+        rc = get<T>(name, key, out);
+        ++st_.checks;
+        if (rc != status::OK || out.second != n * sizeof(T) || out.first == nullptr || out.first != created ||
+            std::memcmp(out.first, arr.data(), n * sizeof(T)) != 0) {
+            fail("value_mismatch", std::string("array of ") + std::to_string(n) + " " + tname + ": get returned " + st_name(rc) + " length " + std::to_string(out.second) +
+                                           (out.first != created ? " (pointer differs from created_value_ptr)" : ""));
+        }
+        rc = remove(token, name, key);
+        if (rc != status::OK) { fail("remove_status", "remove after typed_array_rt returned " + st_name(rc)); }
+        classes.insert("typed_8byte_integer_array");
+    }
+
     void op_value_rt() {
         std::string name = pick_storage(false);
         if (model.count(name) == 0) { return; }
         if (vf::g_decoder >= 2 && pf_.inline_values && c_.chance(1, 10)) {
             inline_null_rt(name);
+            return;
+        }
+        if (vf::g_decoder >= 2 && pf_.prop == "C15" && c_.chance(1, 12)) {
+            switch (c_.range(0, 2)) {
+                case 0: typed_array_rt<std::int64_t>(name, "int64_t"); break;
+                case 1: typed_array_rt<unsigned long long>(name, "unsigned long long"); break;
+                default: typed_array_rt<long long>(name, "long long");
+            }
             return;
         }
         MStore& ms = model[name];
@@ -1742,6 +1794,10 @@ public:
             note("create_storage(\"s\")");
         } else {
             classes.insert("starts_without_any_storage");
+        }
+        if (vf::g_decoder >= 2 && pf_.inline_values && pf_.prop == "C20" && c_.chance(1, 4)) {
+            inline_heavy_ = true;
+            classes.insert("inline_heavy_program");
         }
         std::size_t nops = 0;
         while (!c_.exhausted() && nops < pf_.max_ops) {
